@@ -76,6 +76,7 @@ def gen_driver(path, D):
              'extern "C" void ser_static(SArr& a, SymAr& ar) { a.serialize(ar, 0U); }',
              'extern "C" void ser_ref(Ref& a, SymAr& ar) { a.serialize(ar, 0U); }',
              'extern "C" void ser_view(Sub& a, SymAr& ar) { a.serialize(ar, 0U); }',
+             'using CSub = multi::const_subarray<Tracked, DD>; extern "C" void ser_cview(CSub& a, SymAr& ar) { a.serialize(ar, 0U); }',
              'extern "C" void ser_ext(Ext& x, SymAr& ar) { x.serialize(ar, 0U); }']
     with open(path, "w") as fh:
         fh.write("\n".join(lines) + "\n")
@@ -358,6 +359,33 @@ def run(tier):
                 rep.violated(key, "R17.view", "subarray<T,%d>::serialize: %s" % (D, sorted(set(bad))[0]), dict(problems=sorted(set(bad))[:4]))
             else:
                 rep.ok(key + "#" + tag, "R17.view", None)
+        # R17.names: a view saved through one class is loaded through another (a const view into a mutable one): the per-element actions of all view
+        # classes archive their element under the same name (archives that check names, XML, reject the stream otherwise)
+        n += 1
+        strs = {m_.group(1): m_.group(2) for m_ in re.finditer(r'^(@[\w.$]+) = .*? constant \[\d+ x i8\] c"([^"]*?)\\00"', text, re.M)}
+        names = {}
+        for nm, f in mod.funcs.items():
+            # the call operator of the lambda defined inside a view class's serialize (plain or generic lambda, whatever its return type is spelled as)
+            m_ = re.search(r"boost::multi::((?:const_)?subarray)<.*>::serialize<SymAr>\(SymAr&, unsigned int\)::.?\{?'?lambda'?\(.*\)\W*::operator\(\)", f.demangled)
+            if not m_ or "std::for_each" in f.demangled:
+                continue
+            # the string constants the per-element action passes on (its make_nvp name): read off the function's own instructions
+            for b_ in f.blocks.values():
+                for ins in b_:
+                    for g in re.findall(r"@\.str(?:\.\d+)?", ins.text):
+                        if g in strs:
+                            names.setdefault(m_.group(1), set()).add(strs[g])
+        key = "R17.names@views"
+        allnames = set().union(*names.values()) if names else set()
+        if os.environ.get("VERIF_DEBUG"):
+            print("R17.names", tag, names)
+        if len(names) < 2:
+            rep.break_("R17.names (%s): per-element actions found for %s only" % (tag, sorted(names)))
+        elif len(allnames) != 1:
+            rep.violated(key, "R17.names", "views (D=%d) archive their elements under different names: %s; a view saved by one class cannot be loaded by the other from a name-checking archive"
+                         % (D, {k_: sorted(v_) for k_, v_ in sorted(names.items())}), dict(names={k_: sorted(v_) for k_, v_ in names.items()}))
+        else:
+            rep.ok(key + "#" + tag, "R17.names", dict(name=sorted(allnames)[0]))
     rep.need_instances("R17 rule instances", n, 6 * len(dims))
     rep.explanation = ("The serialize members of array, static_array, array_ref, subarray and extensions_t are interpreted (engine A) on a symbolic archive whose operations "
                        "are external events that may overwrite their operand (as loading does). Decided: the order and completeness of the traversal (extents first and "
